@@ -10,7 +10,7 @@ struct ResetRun : NodeEnv {
     std::vector<std::pair<uint8_t, uint16_t>> emcyTbl = mkTbl();
     static std::vector<std::pair<uint8_t, uint16_t>> mkTbl() { std::vector<std::pair<uint8_t, uint16_t>> t = {{1, 0x2100}, {2, 0x3100}, {1, 0x2200}}; for (int i = 3; i < CO_EMCY_N && i < 27; i++) t.push_back({(uint8_t)(1 + i % 5), (uint16_t)(0x4000 + 0x100 * i)}); return t; }   // as many emergencies as the build allows (identifiers up to 26: several storage bytes)
     uint8_t *cbuf[2][CO_CSDO_N];
-    bool armCb = false, cbFired = false; int cbType = 0; size_t cbMk = 0, cbMk2 = 0;   // reset requested by the application from inside CONmtHbConsEvent
+    int scripts = 0; bool armCb = false, cbFired = false; int cbType = 0; size_t cbMk = 0, cbMk2 = 0;   // reset requested by the application from inside CONmtHbConsEvent
     ResetRun(const Plan &p, Cov &c, bool vb) : NodeEnv(p, c, vb) { memset(cbuf, 0, sizeof cbuf); }
     ~ResetRun() { for (auto &a : cbuf) for (auto &b : a) free(b); }
     static void appCb(void *) {}
@@ -47,14 +47,20 @@ struct ResetRun : NodeEnv {
         if (para) { for (size_t g = 0; g < w.s[0].paras.size(); g++) memcpy(&w.s[0].nvm[w.s[0].paras[g]->Offset], w.s[0].paraRam[g], w.s[0].paras[g]->Size); cov.hit("configuration-of-other-services-held-in-parameter-groups"); }   // NVM as programmed at production: the initial values
         w.init(0); w.start(0);
         if (CONodeGetErr(w.N(0)) != CO_ERR_NONE) fail("setup/node-error", "node reports an error after initialisation");
+        // application code inside other callbacks (armed by 'script', the same for both nodes): writes a mapped asynchronous object from COPdoReceive, triggers a TPDO from COPdoSyncUpdate,
+        // raises / clears an emergency from CONmtModeChange, rewrites the heartbeat producer time from CONmtHbConsChange
+        w.onPdoReceive = [this](const Frame &f) { if (scripts & 1) (void)CODictWrByte(&w.N(w.cur)->Dict, CO_DEV(0x2100, 4), f.d[0]); };
+        w.onSyncUpdate = [this](int) { if (scripts & 2) COTPdoTrigPdo(w.N(w.cur)->TPdo, 0); };
+        w.onModeChange = [this](int mode) { if (scripts & 4) { if (mode == CO_OPERATIONAL) COEmcySet(&w.N(w.cur)->Emcy, 1, nullptr); else COEmcyClr(&w.N(w.cur)->Emcy, 1); } };
+        w.onHbConsChange = [this](uint8_t, int state) { if (scripts & 8) (void)CODictWrWord(&w.N(w.cur)->Dict, CO_DEV(0x1017, 0), state == CO_OPERATIONAL ? 10 : 5); };
         // application code inside CONmtHbConsEvent: a device that restarts its communication when its master's heartbeat is lost.
         // The reset runs inside COTmrProcess (timer callback -> CONmtHbConsMonitor -> CONmtHbConsEvent); node B is created at that very instant.
         w.onHbConsEvent = [this](uint8_t) {
             if (!armCb || split || w.cur != 0) return;
-            armCb = false; w.s[0].sendFail = 0; cbMk = w.evs.size();
+            armCb = false; w.s[0].sendFail = 0; cbMk = w.evs.size(); int keepScripts = scripts; scripts = 0;
             CONmtReset(&w.N(0)->Nmt, cbType ? CO_RESET_NODE : CO_RESET_COM);
-            if (CONmtGetMode(&w.N(0)->Nmt) != CO_PREOP) return;
-            cbFired = true; split = true; cbMk2 = w.evs.size(); makeB(); w.cur = 0;
+            if (CONmtGetMode(&w.N(0)->Nmt) != CO_PREOP) { scripts = keepScripts; return; }
+            cbFired = true; split = true; cbMk2 = w.evs.size(); makeB(); w.cur = 0; scripts = keepScripts;
         };
     }
     // fresh node B holding A's dictionary values
@@ -106,6 +112,7 @@ struct ResetRun : NodeEnv {
             if (rc == 0) { free(cbuf[sl][0]); cbuf[sl][0] = nb; } else free(nb); }   // a refused request leaves the running transfer's buffer alone
         else if (k == "apptmr") { if (sl == 0 && !split) { if (o.arg(0)) { int16_t id = COTmrCreate(&n->Tmr, (uint32_t)o.arg(1) % 30 + 1, (uint32_t)o.arg(2) % 30 + 1, appCb, nullptr); if (id >= 0) appTimers.push_back(id); } else if (!appTimers.empty()) { (void)COTmrDelete(&n->Tmr, (int16_t)appTimers.back()); appTimers.pop_back(); } } }
         else if (k == "rcvret") w.s[sl].pdoReceiveRet = (int)o.arg(0);
+        else if (k == "script") { scripts = (int)o.arg(0) & 15; cov.hit("application-code-inside-callbacks"); }
         else if (k == "geterr") (void)CONodeGetErr(n);
         else if (k == "read") { uint32_t val = 0; rc = (int)CODictRdLong(&n->Dict, CO_DEV(0x2100, 3), &val); rc = rc * 31 + (int)(val & 0xFFFF); rc = rc * 31 + (int)CONmtGetMode(&n->Nmt); rc = rc * 31 + COEmcyCnt(&n->Emcy); rc = rc * 31 + CONmtGetHbEvents(&n->Nmt, 20) + 7 * (int)CONmtLastHbState(&n->Nmt, 20); }
         return rc;
@@ -114,6 +121,8 @@ struct ResetRun : NodeEnv {
         if (!split) {
             if (o.k == "reset") {
                 w.s[0].sendFail = 0;      // fault switches are harness state: none is pending across the reset
+                int keepScripts = scripts; scripts = 0;   // application code stays passive while the reset itself runs (what it does with pre-reset state is its own business); it is active again for the probes
+                struct Restore { int &s; int v; ~Restore() { s = v; } } restore{scripts, keepScripts};
                 size_t mk = w.mark(); w.rx(0, Frame(0, 2, {(uint8_t)(o.arg(0) ? 129 : 130), 0})); w.canproc(0);
                 if (CONmtGetMode(&w.N(0)->Nmt) != CO_PREOP) { cov.hit("reset-ignored-in-this-state"); return; }    // e.g. node was stopped by CONodeStop / INIT
                 split = true; size_t mk2 = w.mark(); makeB(); nontrivial = true; cov.hit(o.arg(0) ? "reset-node" : "reset-communication");
@@ -206,7 +215,7 @@ static void gen_traffic(Rng &r, std::vector<Op> &ops, bool probe, bool para = fa
     else if (c == 36) ops.push_back(Op("csdoreq", {(int64_t)r.below(2), (int64_t)r.below(20), (int64_t)r.below(50)}));
     else if (c == 37) { if (!probe) ops.push_back(Op("apptmr", {(int64_t)r.chance(2, 3), (int64_t)r.below(30), (int64_t)r.below(30)})); else ops.push_back(Op("read")); }
     else if (c == 38) ops.push_back(Op("frame", {0x589, 8}, {r.pick<uint8_t>({0x60, 0x43, 0x80, 0x41, 0x00}), 0x00, 0x20, 1, 1, 2, 3, 4}));     // answer of the remote SDO server
-    else ops.push_back(r.chance(1, 2) ? Op("read") : r.chance(1, 2) ? Op("sendfail", {r.range(1, 3)}) : Op("lag", {(int64_t)r.below(6)}));
+    else ops.push_back(r.chance(1, 2) ? Op("read") : r.chance(1, 3) ? Op("script", {(int64_t)r.below(16)}) : r.chance(1, 2) ? Op("sendfail", {r.range(1, 3)}) : Op("lag", {(int64_t)r.below(6)}));
     if (para && r.chance(1, 6)) { int c2 = (int)r.below(6);
         if (c2 == 0) ops.push_back(Op("frame", {0x600, 8}, {0x23, 0x10, 0x10, (uint8_t)r.range(1, 2), 0x73, 0x61, 0x76, 0x65}));                       // 'save'
         else if (c2 == 1) { uint32_t nid = r.pick<uint32_t>({0x640, 0x650, 0x660}); ops.push_back(sdoWr(0x1201, 1, 0x80000000u | 0x641, 4)); ops.push_back(sdoWr(0x1201, 1, nid + 1, 4)); }   // second server moved to another request identifier
